@@ -24,7 +24,8 @@ ASSUMPTIONS = ['pandas arithmetic of two Series on one index is pointwise with N
                'comparisons with NaN are False, np.minimum/np.maximum propagate NaN, x**0 = 1 and 1**y = 1 also for NaN (PygModel/OpsX.lean, sampled)',
                'not modelled: frames with duplicate column names / numpy arrays (positional columns), the column policies lj/rj, the object-dtype empty `pd.Series({})` '
                '(no common column) fed on into an operator with a fill method, DataFrame operands of pow_/comparisons/min_/max_, negative or fractional exponents, '
-               'df_std, aggregates over a mix of frames and Series, float rounding']
+               'df_std, float rounding; aggregates over a mix of frames and Series / one-column frames are checked against the statement only (aggx, known finding C08-A1)',
+               'aggregates: a scalar operand counts at every timestamp / in every cell, a NaN scalar never (PygModel/Ops.lean aggregate, OpsF.lean aggregateFS, sampled)']
 S = 4
 nan = float('nan')
 VALS = [0.0, 0.0, 1.0, -1.0, 2.0, 0.5, -0.25, 3.0, 1.5]
@@ -199,7 +200,47 @@ def gen_frames(rng, tier):
         cs, crel = rand_colsets(rng, k)
         fs = [rand_frame(rng, days[j], MEANV if g == 'mean' else VALS, cs[j]) for j in range(k)]
         how, m, ch = rng.choice(['oj', 'oj', 'oj', 'ij']), rng.choice(['N', 'N', 'ffill', 'bfill']), rng.choice(['oj', 'oj', 'ij'])
-        yield dict(tag='aggf/%s/%d/%s/%s/%s/%s/%s' % (g, k, rel, crel, how, m, ch), lines=['(ops aggf %s %s %s %s %s)' % (g, enc_in(fs), how, m, ch)])
+        sc = ''
+        if rng.random() < 0.3:
+            fs, sc = with_scalars(rng, fs, g), '+scalar'         # a scalar counts in every cell
+        yield dict(tag='aggf/%s/%d/%s/%s/%s/%s/%s%s' % (g, k, rel, crel, how, m, ch, sc), lines=['(ops aggf %s %s %s %s %s)' % (g, enc_in(fs), how, m, ch)])
+    # aggregates over MIXED operands (a Series or a one-column frame beside frames / other names): not in the Lean model, the
+    # statement is checked directly (check_agg_mixed); known finding C08-A1 lives here
+    n = 120 if tier == 'quick' else 3000
+    for _ in range(n):
+        g = rng.choice(['sum', 'mean', 'count'])
+        xs, shape = rand_mixed(rng, g)
+        yield dict(tag='aggx/%s/%s' % (g, shape), lines=['(ops aggx %s %s oj N oj)' % (g, enc_in(xs))])
+
+
+MIXED = ['ts+df', 'ts+df', 'df+ts+num', 'df1x+df1y', 'df1x+df1y', 'df1+ts', 'df+df1', 'df+df1-other', 'df1x+df1x', 'df+num+df']
+
+
+def rand_mixed(rng, g):
+    shape = rng.choice(MIXED)
+    vals = MEANV if g == 'mean' else VALS
+    days, rel = rand_fdays(rng, 3)
+    ts = lambda j: rand_series(rng, days[j], vals)
+    df = lambda j, names: rand_frame(rng, days[j], vals, names)
+    if shape == 'ts+df':
+        xs = [ts(0), df(1, rng.choice(COLSETS))]
+    elif shape == 'df+ts+num':
+        xs = [df(0, rng.choice(COLSETS)), ts(1), rng.choice(vals)]
+    elif shape == 'df1x+df1y':
+        xs = [df(0, ['x']), df(1, ['y'])]
+    elif shape == 'df1+ts':
+        xs = [df(0, ['x']), ts(1)]
+    elif shape == 'df+df1':
+        xs = [df(0, ['a', 'b']), df(1, ['a'])]
+    elif shape == 'df+df1-other':
+        xs = [df(0, ['a', 'b']), df(1, ['z'])]
+    elif shape == 'df1x+df1x':
+        xs = [df(0, ['x']), df(1, ['x'])]                       # control: works (pandas adds by name)
+    else:
+        xs = [df(0, ['a', 'b']), rng.choice(vals), df(1, rng.choice([['a', 'b'], ['b', 'c']]))]      # control: modelled shape
+    if rng.random() < 0.5:
+        xs = xs[::-1]
+    return xs, shape
 
 
 POWB = [0.0, 1.0, 1.0, -1.0, 2.0, 0.5, -0.5, 3.0, 1.5, -0.25]
@@ -289,7 +330,26 @@ def gen_series(rng, tier):
         g = rng.choice(['sum', 'mean', 'count'])
         ss, rel = rand_operands(rng, rng.choice([1, 2, 3, 4]), MEANV if g == 'mean' else VALS)
         how, m = rng.choice(['oj', 'oj', 'oj', 'ij']), rng.choice(['N', 'N', 'ffill'])
-        yield dict(tag='agg/%s/%d/%s/%s/%s' % (g, len(ss), rel, how, m), lines=['(ops agg %s %s %s %s)' % (g, enc_in(ss), how, m)])
+        sc = ''
+        r = rng.random()
+        if r < 0.35:
+            # scalar operands: a number counts at every timestamp, a NaN scalar never (r4: the model used to drop them)
+            ss, sc = with_scalars(rng, ss, g), '+scalar'
+        elif r < 0.4:
+            ss, sc = [agg_scalar(rng, g) for _ in ss], '+scalars-only'
+        yield dict(tag='agg/%s/%d/%s/%s/%s%s' % (g, len(ss), rel, how, m, sc), lines=['(ops agg %s %s %s %s)' % (g, enc_in(ss), how, m)])
+
+
+def agg_scalar(rng, g):
+    return rng.choice((MEANV if g == 'mean' else VALS) + [nan, nan, 3])
+
+
+def with_scalars(rng, xs, g):
+    xs = list(xs)
+    for _ in range(rng.choice([1, 1, 2])):
+        if len(xs) < 4:
+            xs.insert(rng.randrange(len(xs) + 1), agg_scalar(rng, g))
+    return xs
 
 
 # ------------------------------------------------------------------ implementation runner
@@ -344,6 +404,9 @@ def run_line(state, sx):
         if not A.same_tree(xs, before):
             return 'violation input-modified'
         return 'ok ' + enc_out(res, sort_columns=True)
+    if op == 'aggx':       # aggregates over mixed operands: checked against the statement itself
+        bad = check_agg_mixed(args[0], dec_in(args[1]))
+        return 'violation ' + bad if bad else 'ok aggx-checked'
     if op == 'frames':     # DataFrame operands: not in the Lean model, checked against the python reference of the statement
         bad = check_frames(args[0], W.dec_frame(args[1], S), W.dec_frame(args[2], S), args[3], args[4])
         return 'violation ' + bad if bad else 'ok frames-checked'
@@ -351,15 +414,26 @@ def run_line(state, sx):
 
 
 def compare(case, i, line, ir, mr):
-    if line.startswith('(ops frames '):
+    if line.startswith('(ops frames ') or line.startswith('(ops aggx '):
         return ir if ir.startswith('violation') else None
     if proto.same_reply(ir, mr):
+        # same_reply compares (D ..) nodes as sets: the ORDER of the result columns of the operators (theorems
+        # binopF_columns_sorted / "the common header in its own order") is compared here; the aggregates' order is pandas' business
+        if line.startswith('(ops binf ') and _header(ir) != _header(mr):
+            return ('divergence', 'same frame, columns in the order %s; the model gives %s' % (_header(ir), _header(mr)))
         return None
     if ir.startswith('violation'):
         return ir
     if 'F:inf' in ir or 'F:-inf' in ir:
         return 'the result holds +-inf: %s' % ir
     return 'implementation %s, model %s' % (ir, mr)
+
+
+def _header(reply):
+    if not reply.startswith('ok (df '):
+        return None
+    sx = proto.parse(reply[3:])
+    return [proto.unhex(kv[0]) for kv in sx[1][2][1:]]
 
 
 def nontrivial(line, reply):
@@ -422,6 +496,63 @@ def check_frames(op, fa, fb, how, cols):
         if not A.same_vals(list(map(float, res[c].values)), vals):
             return 'column %s: got %s, the statement gives %s' % (c, list(res[c].values), vals)
     return None
+
+
+def check_agg_mixed(g, xs):
+    """df_sum / df_mean / df_count over any mix of Series, frames and scalars, in the part of the statement that does not
+    depend on how a Series combines with named columns: the result lives on the union index, its columns are column names
+    of the operands, and a row is NaN (count 0) throughout only where NO operand has data at that timestamp"""
+    pds = [x for x in xs if isinstance(x, (pd.Series, pd.DataFrame))]
+    try:
+        res = _fn('df_' + g)(xs)
+    except Exception as e:
+        return 'df_%s raised %s: %s' % (g, type(e).__name__, str(e)[:100])
+    if not pds:
+        return None
+    idx = A.expected_index(pds, 'oj')
+    if not isinstance(res, (pd.Series, pd.DataFrame)):
+        return 'df_%s returned a %s' % (g, type(res).__name__)
+    if list(res.index) != list(idx):
+        return 'df_%s: index %s, the union index is %s' % (g, [str(t)[:10] for t in res.index], [t.day for t in idx])
+    names = set(c for x in pds if isinstance(x, pd.DataFrame) for c in x.columns)
+    if isinstance(res, pd.DataFrame):
+        odd = [c for c in res.columns if c not in names and c != 0]
+        if odd:
+            return 'df_%s: the result has columns %s that no operand has' % (g, [str(c)[:10] for c in odd][:4])
+    scalar_data = any(not isinstance(x, (pd.Series, pd.DataFrame)) and not _isnan(float(x)) for x in xs)
+    for t in idx:
+        has = scalar_data
+        for x in pds:
+            if t in x.index:
+                row = x.loc[t]
+                has = has or (not _isnan(float(row)) if isinstance(x, pd.Series) else bool(row.notna().any()))
+        row = res.loc[t]
+        vals = [float(row)] if isinstance(res, pd.Series) else [float(v) for v in row.values]
+        shows = any(not _isnan(v) and (g != 'count' or v > 0) for v in vals)
+        if has and not shows:
+            return 'df_%s: the row of day %d is NaN / 0 throughout although an operand has data there (result %s)' % (
+                g, t.day, enc_out(res, True) if len(res.columns if isinstance(res, pd.DataFrame) else []) < 6 else 'wide frame')
+        if not has and shows and g != 'count':
+            return 'df_%s: the row of day %d holds a value although no operand has data there' % (g, t.day)
+    return None
+
+
+def _kinds(sx):
+    """(series, one-column frames [names], multi-column frames) among the operands of an agg line"""
+    ts = sum(1 for x in sx[1:] if x[0] == 'ts')
+    one = [x[1][2][1][0] for x in sx[1:] if x[0] == 'df' and len(x[1][2]) == 2]
+    multi = sum(1 for x in sx[1:] if x[0] == 'df' and len(x[1][2]) > 2)
+    return ts, one, multi
+
+
+def agg_mixed_operands(f):
+    """C08-A1: an aggregate whose operands mix a Series with frames, a one-column frame with a frame of several columns, or
+    one-column frames of different names - after df_sync they are added with pandas' own alignment"""
+    line = f.case['lines'][0]
+    if not line.startswith('(ops aggx '):
+        return False
+    ts, one, multi = _kinds(proto.parse(line)[3])
+    return (ts >= 1 and (len(one) + multi) >= 1) or (len(one) >= 1 and multi >= 1) or len(set(one)) >= 2
 
 
 def laws(rng, tier, ctx):
@@ -495,10 +626,11 @@ def laws(rng, tier, ctx):
     # aggregates
     for _ in range(n // 2):
         g = rng.choice(['sum', 'mean', 'count'])
-        ss, rel = rand_operands(rng, rng.choice([2, 3, 4]), MEANV if g == 'mean' else VALS)
-        case = dict(tag='law-agg', lines=['(ops agg %s %s oj N)' % (g, enc_in(ss))])
+        ss, rel = rand_operands(rng, rng.choice([2, 3]), MEANV if g == 'mean' else VALS)
+        xs = with_scalars(rng, ss, g) if rng.random() < 0.3 else ss
+        case = dict(tag='law-agg', lines=['(ops agg %s %s oj N)' % (g, enc_in(xs))])
         try:
-            res = _fn('df_' + g)(ss)
+            res = _fn('df_' + g)(xs)
         except Exception as e:
             yield Finding('violation', case, 'df_%s raised %s: %s' % (g, type(e).__name__, str(e)[:100]))
             continue
@@ -506,7 +638,8 @@ def laws(rng, tier, ctx):
         idx = A.expected_index(ss, 'oj')
         exp = []
         for t in idx:
-            vs = [float(s[t]) for s in ss if t in s.index and not _isnan(float(s[t]))]
+            vs = [float(s[t]) for s in xs if isinstance(s, pd.Series) and t in s.index and not _isnan(float(s[t]))]
+            vs += [float(q) for q in xs if not isinstance(q, pd.Series) and not _isnan(float(q))]
             exp.append(float(len(vs)) if g == 'count' else nan if not vs else sum(vs) if g == 'sum' else sum(vs) / len(vs))
         if not (isinstance(res, pd.Series) and list(res.index) == list(idx) and A.same_vals(list(map(float, res.values)), exp)):
             yield Finding('violation', case, 'df_%s: got %s, the statement gives %s on %s' % (g, enc_out(res) if isinstance(res, pd.Series) else res, exp, [t.day for t in idx]))
@@ -541,4 +674,4 @@ def laws(rng, tier, ctx):
 
 
 shrink = W.shrink
-MATCHERS = {}
+MATCHERS = {'agg_mixed_operands': agg_mixed_operands}
